@@ -147,6 +147,7 @@ struct C06 {
     align_checks: u64,
     anchor_checks: u64,
     prev_ids: Vec<BTreeSet<u32>>,
+    max_newer: BTreeMap<(usize, u32), usize>,
     boundaries_checked: u64,
     boundaries_empty_block: u64,
     violated: bool,
@@ -280,6 +281,13 @@ impl C06 {
         // ---------------- retained anchor boundaries inside the scanned range
         if retention.is_some() {
             let bs: Vec<u32> = h.w.scanned.keys().copied().filter(|x| is_boundary(*x)).collect();
+            for b in &bs {
+                for pool in POOLS {
+                    let n = id_sets[pool.idx()].range(b + 1..).count();
+                    let e = self.max_newer.entry((pool.idx(), *b)).or_insert(0);
+                    *e = (*e).max(n);
+                }
+            }
             for b in bs {
                 self.boundaries_checked += 1;
                 let blk = &h.sim.all_blocks[&h.w.scanned[&b]];
@@ -293,7 +301,10 @@ impl C06 {
                         // gets only a synthesised ("ensured") checkpoint, which update_tree adds
                         // after pruning and skips below the tree's oldest checkpoint; it is lost
                         // when 100 or more newer checkpoints exist in that tree.
-                        let newer = id_sets[pool.idx()].range(b + 1..).count();
+                        // (the exposure is judged on the most newer checkpoints the tree has
+                        // ever held while this boundary was scanned: a later truncation lowers the
+                        // current count but does not bring a lost checkpoint back)
+                        let newer = self.max_newer.get(&(pool.idx(), b)).copied().unwrap_or(0);
                         let kind = if empty && newer >= 100 {
                             "block-without-commitments:beneath-100-newer-checkpoints"
                         } else if empty {
